@@ -59,7 +59,7 @@ def floatFmod (x y : Float) : Float :=
           let s := if s0 > r then s0 / 2 else s0
           go (r - s) fuel
     let r := go x.abs 2200
-    if x < 0 then -r else r
+    if x.toBits >>> 63 == 1 then -r else r   -- sign of the dividend, also for a zero dividend (C: fmod(-0., y) = -0.)
 
 instance : Num Float where
   ofNat := Float.ofNat
